@@ -347,3 +347,100 @@ def in_carve_out(unit_name, inp):
 def bounded_inputs(unit_name, rng):
     for s in (1, 2):
         yield {"seed": s, "tdms": s == 1}
+
+
+# --------------------------------------------------------------------------
+# h5ds_copy: transfer of one numeric dataset
+# --------------------------------------------------------------------------
+import h5py as _h5py   # noqa: E402
+
+
+def _h5o_copy(interp, src_loc=None, src_name=None, dst_loc=None, dst_name=None, **kw):
+    """H-COPY (h5py.h5o.copy): dst_loc[dst_name] becomes a copy of the object src_loc[src_name]"""
+    models.axiom("H-COPY (HDF5 object copy keeps data and attributes)")
+    sn = src_name.decode() if isinstance(src_name, bytes) else src_name
+    dn = dst_name.decode() if isinstance(dst_name, bytes) else dst_name
+    src = h5model._grp_getitem(interp, src_loc, sn)
+    h5model.note_h5_write(interp, dst_loc, f"copy {dn}")
+    interp.heap_write(dst_loc)
+    c = src.fields["content"]
+    cp = new_dataset(interp.ctx, SArr(c.n, c.a, c.kind, dtype=c.dtype), name=f"{dst_loc.fields['name']}/{dn}",
+                     chunks=src.fields.get("chunks"), dtype=src.fields.get("dtype"),
+                     attrs=new_attrs(interp.ctx, d=dict(src.fields["attrs"].fields["d"])))
+    dst_loc.fields["members"][dn] = cp
+    return None
+
+
+models._MODELS[_h5py.h5o.copy] = _h5o_copy
+
+
+class ProperlyCompressed(Contract):
+    name = "is_properly_compressed"
+    trusted = True
+
+    def __call__(self, interp, h5obj):
+        return interp.ctx.bool("properly_compressed", inp=True)
+
+
+class H5dsCopyDataset(Contract):
+    """h5ds_copy(src_loc, src_name, dst_loc, dst_name) for a numeric dataset with at least one
+    entry: afterwards dst_loc[dst_name] holds the same values in the same order and the same
+    attributes, whether the dataset is handed to HDF5's object copy (already compressed) or
+    re-created and filled chunk by chunk / at once; the returned object is that dataset; the
+    source is not written."""
+    path = COP
+    module = CMOD
+    qualname = "h5ds_copy"
+    params = ("src_loc", "src_name", "dst_loc", "dst_name", "ensure_compression", "recursive")
+    native = set()
+
+    def __init__(self, chunked):
+        self.chunked = chunked
+        self.name = f"h5ds_copy[numeric dataset, {'chunked' if chunked else 'contiguous'}]"
+        super().__init__()
+        self.callees = {"is_properly_compressed": ProperlyCompressed()}
+        self.loops = {"chunk in src.iter_chunks()": LoopSpec(inv=self.inv, modifies=lambda ctx, v: [v.dst, v.dst.fields["content"]])}
+
+    def inputs(self, ctx):
+        n = ctx.int("N", lo=1, inp=True)
+        content = ctx.arr("values", "F", n=n.e, inp=True, dtype=np.dtype("float64"))
+        self._c0 = SArr(content.n, content.a, "F")
+        c = ctx.int("chunk_length", lo=1, inp=True)
+        self._amin = ctx.real("attr_min")
+        src = new_dataset(ctx, content, name="/events/deform", chunks=(c,) if self.chunked else None,
+                          dtype=np.dtype("float64"), attrs=new_attrs(ctx, d={"min": self._amin}))
+        self._src = src
+        src.realcls = _h5py.Dataset
+        src_loc = new_group(ctx, members={"deform": src}, name="/events")
+        dst_loc = new_group(ctx, name="/dst_events")
+        src_loc.realcls = dst_loc.realcls = _h5py.Group
+        self._dst_loc = dst_loc
+        self._n = n.e
+        return {"src_loc": src_loc, "src_name": "deform", "dst_loc": dst_loc, "dst_name": None,
+                "ensure_compression": True, "recursive": True}
+
+    def inv(self, ctx, v):
+        k = z3.Int("k!hc")
+        it = to_z3(v.it)
+        c = to_z3(self._src.fields["chunks"][0])
+        done = z3.If(c * it < self._n, c * it, self._n)
+        dc = v.dst.fields["content"]
+        return [("the destination has the length of the source and holds the source values of all chunks written so far",
+                 z3.And(dc.n == self._n,
+                        z3.ForAll([k], z3.Implies(z3.And(k >= 0, k < done), dc.sel(k) == self._c0.sel(k)))))]
+
+    def ensures(self, ctx, old, a, result):
+        from pyvc.sym import seq_eq
+        d = self._dst_loc.fields["members"].get("deform")
+        if d is None:
+            return [("the dataset exists in the destination", z3.BoolVal(False))]
+        attrs = d.fields["attrs"].fields["d"]
+        return [("same values in the same order", seq_eq(d.fields["content"], self._c0)),
+                ("same attributes", z3.BoolVal(set(attrs) == {"min"}) if "min" not in attrs
+                 else z3.And(z3.BoolVal(set(attrs) == {"min"}), to_z3(attrs["min"], "real") == self._amin.e)),
+                ("the returned object is the new dataset", z3.BoolVal(result is d)),
+                ("the source keeps its values", seq_eq(self._src.fields["content"], self._c0))]
+
+
+UNITS += [H5dsCopyDataset(True), H5dsCopyDataset(False)]
+TRUSTED += [ProperlyCompressed()]
